@@ -211,10 +211,20 @@ impl HalfConnection {
             let rtt_s = self.send_rate_comp.rtt_s();
 
             let delta_time = (now - time_last_flushed).as_secs_f64();
-            let new_bytes = (send_rate * delta_time).round() as isize;
+            let new_bytes = (send_rate * delta_time).floor() as isize;
             let alloc_max = (send_rate * rtt_s.unwrap_or(0.0)).round() as isize;
 
-            self.flush_alloc = self.flush_alloc.saturating_add(new_bytes).min(alloc_max);
+            let new_alloc = self.flush_alloc.saturating_add(new_bytes);
+
+            if new_alloc >= alloc_max {
+                // The allocation is full. Nothing accrues while it is, not even a fraction of a
+                // byte, so the elapsed time starts over.
+                self.flush_alloc = alloc_max;
+                self.time_last_flushed = Some(now);
+                return;
+            }
+
+            self.flush_alloc = new_alloc;
 
             if new_bytes == 0 {
                 // Less than one byte has accrued since the last fill: keep the reference time so
@@ -222,8 +232,15 @@ impl HalfConnection {
                 return;
             }
 
+            // Only whole bytes are credited. Advance the reference time by the time it took them
+            // to accrue, so that the remainder carries over to the next fill and the credit
+            // granted over any number of fills never exceeds send rate x elapsed time.
+            let credited_time = time::Duration::from_secs_f64((new_bytes as f64 / send_rate).min(delta_time));
+            self.time_last_flushed = Some(time_last_flushed + credited_time);
+
             //println!("dt: {}s, rtt: {:?}s, rate: {}B/s, new: {}B, max: {}B, val: {}B",
             //       delta_time, rtt_s, send_rate, new_bytes, alloc_max, self.flush_alloc);
+            return;
         }
         self.time_last_flushed = Some(now);
     }
